@@ -1623,6 +1623,34 @@ func runWitness(c *mon.Case) {
 		if pan || len(got) != 3 || got[0].Name != "a" || got[1].Name != "a" || got[2].Name != "b" || got[0].Seq == got[1].Seq {
 			c.Failf("Sort:dup-names", "Sort with two rows named a gave %s %s", h.Show(got), msg)
 		}
+	case 7:
+		// a TrimNames call that fails half-way (more than 100 identical short names) has renamed the first rows:
+		// whatever the names are by then, lookups by name, by index and iteration still agree
+		for _, aligned := range []bool{true, false} {
+			var sb align.SeqBag = align.NewSeqBag(align.NUCLEOTIDS)
+			if aligned {
+				sb = align.NewAlign(align.NUCLEOTIDS)
+			}
+			for i := 0; i < 130; i++ {
+				sb.AddSequence(fmt.Sprintf("sample_%03d", i), "ACGT", "")
+			}
+			err := sb.TrimNames(map[string]string{}, 8)
+			if p := h.Invariants(sb); len(p) > 0 {
+				c.Failf("TrimNames:invariant-hook-after-refusal", "TrimNames(size 8) on 130 names sample_NNN returned %v and left: %v", err, p)
+				break
+			}
+			for i := 0; i < sb.NbSequences(); i++ {
+				n, _ := sb.GetSequenceNameById(i)
+				if id := sb.GetSequenceIdByName(n); id < 0 {
+					c.Failf("TrimNames:byname-after-refusal", "after the refused TrimNames (%v) row %d is named %q, a name GetSequenceIdByName does not know", err, i, n)
+					break
+				}
+				if _, ok := sb.GetSequence(n); !ok {
+					c.Failf("TrimNames:byname-after-refusal", "after the refused TrimNames (%v) row %d is named %q, a name GetSequence does not know", err, i, n)
+					break
+				}
+			}
+		}
 	case 6:
 		a := mk("x", "ACGTA", "y", "ACGTC")
 		a.FilterLength(10, -1)
@@ -1653,7 +1681,7 @@ func main() {
 	mon.Floor("rejected-insertions", 20)
 	mon.Floor("concurrent:calls", 500)
 	mon.Main("C01", []mon.Sub{
-		{Name: "witness", Quick: 7, Thorough: 7, Run: runWitness},
+		{Name: "witness", Quick: 8, Thorough: 8, Run: runWitness},
 		{Name: "history", Quick: 40000, Thorough: 2000000, Run: func(c *mon.Case) { runHistory(c, nil) }},
 		// every renamer / re-orderer followed by by-name queries and Sort: the stale-index family
 		{Name: "rename-then-sort", Quick: 6000, Thorough: 200000, Run: func(c *mon.Case) {
